@@ -321,6 +321,37 @@ func runC13(sc *Scenario, st *Stats) []Violation {
 			"plan": r0.Explain, "fault_free_calls": len(base), "positions_faulted": len(base)}, 4)
 	}
 
+	// --- read-only sweep ------------------------------------------------------
+	// More SELECTs than can be fault-enumerated: a few generator statements per
+	// case, fault-free, both drain modes, judged only for "never invokes a
+	// mutating storage operation" (a write hidden behind a rare function, plan
+	// shape or result size would show here).
+	if len(sc.Faults) == 0 {
+		rr := NewRng(sc.Seed ^ 0x5e1ec7)
+		g := newGen(rr, StoreMixed)
+		for k := 0; k < 4; k++ {
+			text := g.Select(rr.Bool()).Render(false)
+			for _, mode := range []string{ModeRow, ModeBatch} {
+				wq, rq := runStmts(sc, sc.Cfg, []Stmt{{Text: text, Mode: mode}}, nil)
+				st.noteRun(wq, rq)
+				if rq[0].BuildErr != "" {
+					break
+				}
+				st.Inc("select_runs_checked_readonly")
+				for _, e := range wq.H.log {
+					if isMutating(e.Op) {
+						vs = append(vs, Violation{Prop: "C13", Kind: "select-mutates",
+							Detail: fmt.Sprintf("SELECT issued %s %s%v | statement: %s", e.Op, e.Key, e.Keys, text),
+							Sig:    "stmt=select plan=" + planShape(rq[0].Explain) + " mode=" + mode + " sweep",
+							Pinned: &Scenario{Prop: "C13", Seed: sc.Seed, Cfg: sc.Cfg, Init: sc.Init, Family: "readonly-sweep",
+								Clients: []Client{{Stmts: []Stmt{{Text: text, Mode: mode}}}}}})
+						break
+					}
+				}
+			}
+		}
+	}
+
 	// --- single-fault enumeration ------------------------------------------
 	type fk struct {
 		call int
